@@ -4,8 +4,9 @@
 Usage: gen.py [--only NAME ...]
 Writes a file only when its content changed.  Fail-closed: on anything the
 translator does not understand it prints `TRANSLATE-ERROR <file>: <why>` and
-exits 2; the files it could not produce are replaced by nothing (the old ones
-are removed so that a stale model is never proved against).
+exits 2; a file it could not produce is replaced by a stub without definitions
+(so that a stale model is never proved against: everything that uses a
+definition of that file stops compiling, and nothing else does).
 """
 import importlib
 import os
@@ -36,6 +37,9 @@ MODULES = [
 ]
 
 
+STUB = "(* the translator could not produce this file from the live code: no definitions *)\nDefinition translate_failed : bool := true.\n"
+
+
 def main(argv):
     only = None
     if "--only" in argv:
@@ -54,14 +58,12 @@ def main(argv):
             print("GEN %s %s" % (name, "changed" if changed else "same"))
         except TranslateError as e:
             print("TRANSLATE-ERROR %s: %s" % (name, e))
-            if os.path.exists(path):
-                os.remove(path)
+            write_if_changed(path, STUB)
             rc = 2
         except Exception as e:  # import errors of the mutated repo etc.
             print("TRANSLATE-ERROR %s: %s: %s" % (name, type(e).__name__, e))
             traceback.print_exc()
-            if os.path.exists(path):
-                os.remove(path)
+            write_if_changed(path, STUB)
             rc = 2
     return rc
 
